@@ -79,6 +79,19 @@ CHECKS = {
    note='Trusted: clang front end; correctly rounded host printf and C literal parsing; union same-size type punning. '
         'Not decided: the run-time value the C compiler assigns to the literal.',
    ref='DESIGN.md 4/C07'),
+ 'C09': dict(
+   technique='structured lock-region must-analysis (held/free facts per mutex with loop fixpoint) of the writer pool in the HAS_PTHREAD=1 configuration; call-graph effect analysis of everything reachable from the worker entry (stores by storage class, non-reentrant callees, const casts); path enumeration of the static/dynamic split loops; typed-AST equality of every template across formatting modes; partial evaluation of File/String twin emitters on argument grids derived from parameter types',
+   text='Worker and producer: every access to writer.task / writer.done / the shared task record happens with the writer mutex held, '
+        'lock and unlock are paired on every path including the done exit, every pthread_cond_wait sits in a while loop over the shared '
+        'predicate with that mutex, posting a task is followed by a signal and done by a broadcast before the unlock, the worker clears the '
+        'slot under the lock. None of the ~140 functions reachable from the worker writes static storage, calls a non-reentrant library '
+        'function or casts away const from module data; the stateful debug-line cursor reaches workers only under threadCount == 1. The '
+        'split loops append each function exactly once to exactly one list before advancing, static only under hash equality with the '
+        'consumed reference entry. For about 650 template pairs the pretty and compact forms have the same typed AST and symbol prefixing '
+        'only prefixes callee identifiers; all File/String twin emitters agree on a grid of names/indices/flags.',
+   note='Not decided: byte-identical output and deadlock freedom under every interleaving (schedule-quantified; the rules are the structural '
+        'necessary conditions), the file-count arithmetic for all (n, f), -g/-r behaviour beyond these rules, compile-on-its-own of every emitted file.',
+   ref='DESIGN.md 4/C09'),
  'C10': dict(
    technique='whole-translator AST rules: worst-case sprintf length from format + value ranges of promoted arguments vs destination array; source-derived-from-destination analysis for restrict copies; branch-sensitive structured must-analysis (facts from comparison outcomes, killed by writes and callee field mod-sets) for raw Buffer.data access and for interprocedural may-be-NULL flows',
    text='Over all 14 translator sources (about 600 function definitions): every sprintf into a fixed array fits for every argument value '
